@@ -43,6 +43,14 @@ type runner struct {
 	f        Focus
 	rng      *rand.Rand
 	thorough bool
+	dead     map[Target]bool // servers that stopped answering: nothing more is sent to them
+}
+
+func (r *runner) fuzzN() int {
+	if r.thorough {
+		return 4000
+	}
+	return 300
 }
 
 func describe(t Target, c Case, in Input) map[string]any {
@@ -79,13 +87,16 @@ func (r *runner) wants(what string) bool {
 	case "wf":
 		return what != "panic"
 	case "survive":
-		return what == "panic" || what == "peer-problem" || strings.Contains(what, "-silent") || strings.Contains(what, "-empty-2") ||
-			strings.HasSuffix(what, "-unanswered")
+		// the peer-input part of the statement: malformed input must be answered (handler outcomes are C03's)
+		return what == "panic" || what == "peer-problem" || strings.HasPrefix(what, "unserved-") || strings.HasPrefix(what, "unparsable-")
 	}
 	return what == "peer-problem"
 }
 
 func (r *runner) exchange(t Target, c Case, in Input) Observed {
+	if r.dead[t] {
+		return Observed{Dead: true}
+	}
 	r.s.About(c.Label, describe(t, c, in))
 	op := t.ModelOp(in) // before the exchange: it carries the state the server is in when the input arrives
 	o := t.Exchange(in)
@@ -94,7 +105,16 @@ func (r *runner) exchange(t Target, c Case, in Input) Observed {
 	nontrivial := len(o.Messages()) > 0 || (o.Status != nil && *o.Status >= 400)
 	tags := append([]string{"server:" + t.Name()}, c.Tags...)
 	r.s.Emit(op, o.Outcome(), nontrivial, tags...)
+	isFuzz := false
+	for _, tg := range c.Tags {
+		isFuzz = isFuzz || tg == "fuzz"
+	}
 	for _, f := range Judge(t.Kind(), c.Exp, o) {
+		if isFuzz && (strings.HasPrefix(f.what, "unserved-") || strings.HasPrefix(f.what, "unparsable-")) {
+			// random inputs usually carry several defects at once: which one explains a silence is ambiguous, and the
+			// deterministic mutation set covers every single one of them — only the stronger findings are taken from fuzzing
+			continue
+		}
 		if r.wants(f.what) {
 			fp := "rpc:" + t.Kind() + ":" + f.what
 			if c.Exp.Cause != "" && (strings.HasPrefix(f.what, "unserved-") || strings.HasPrefix(f.what, "unparsable-")) {
@@ -107,6 +127,15 @@ func (r *runner) exchange(t Target, c Case, in Input) Observed {
 	}
 	if r.f.Kind == "wf" {
 		r.wfLines(t, c, in, o)
+	}
+	if o.Dead {
+		if r.dead == nil {
+			r.dead = map[Target]bool{}
+		}
+		r.dead[t] = true
+		r.s.Violate(hk.Violation{Fingerprint: "rpc:" + t.Kind() + ":stopped-answering",
+			What:  "after this input the server no longer answers a well-formed ping on the same connection; the rest of the batch was skipped",
+			Input: describe(t, c, in), Observed: o.Outcome(), Expected: "the next well-formed request is served normally"})
 	}
 	return o
 }
@@ -143,16 +172,7 @@ func (r *runner) wfLines(t Target, c Case, in Input, o Observed) {
 	}
 	for _, m := range o.Messages() {
 		ds := checkMsg(c.Exp, m)
-		var ids []string
-		for _, d := range ds {
-			ids = append(ids, d.id)
-		}
-		sort.Strings(ids)
-		if c.Exp.Class == "free" && c.Exp.Method == "" {
-			continue
-		}
 		r.s.Emit(map[string]any{"c": r.f.Comp + ".wf", "req": req, "msg": m}, map[string]any{"wf": len(ds) == 0}, len(ds) > 0, "wf-line")
-		_ = ids
 	}
 }
 
@@ -369,6 +389,7 @@ func (r *runner) runWF() {
 	cs := MutationCases(reg, false)
 	cs = append(cs, OtherMessages(reg)...)
 	cs = append(cs, GarbageCases(reg, r.rng, r.thorough)...)
+	cs = append(cs, FuzzCases(reg, r.rng, r.fuzzN())...)
 	r.runCases(ts, cs)
 	for _, t := range ts {
 		r.httpCases(t)
@@ -438,6 +459,7 @@ func (r *runner) runAlike() {
 		if regName == "small" {
 			cs = append(cs, MutationCases(reg, false)...)
 			cs = append(cs, GarbageCases(reg, r.rng, r.thorough)...)
+			cs = append(cs, FuzzCases(reg, r.rng, 4*r.fuzzN())...)
 		}
 		for _, c := range cs {
 			if !c.WF {
@@ -507,6 +529,9 @@ func (r *runner) surviveOn(t Target, cs []Case) {
 		return
 	}
 	check := func(after string) {
+		if r.dead[t] {
+			return
+		}
 		r.s.About("good-request after "+after, map[string]any{"server": t.Name(), "body": goodBody})
 		o := t.Exchange(goodIn)
 		same := reflect.DeepEqual(o.Outcome(), ref.Outcome())
@@ -594,6 +619,7 @@ func (r *runner) surviveCases(reg *Registry) []Case {
 	cs := MutationCases(reg, false)
 	cs = append(cs, OtherMessages(reg)...)
 	cs = append(cs, GarbageCases(reg, r.rng, r.thorough)...)
+	cs = append(cs, FuzzCases(reg, r.rng, r.fuzzN())...)
 	cs = append(cs, ValidCases(reg, r.rng, false)...)
 	r.rng.Shuffle(len(cs), func(i, j int) { cs[i], cs[j] = cs[j], cs[i] })
 	return cs
